@@ -349,6 +349,13 @@ def c05(c):
     c.assumptions += ["'for every seed' is sampled (representability failures were ~1.6 per mille of Falcon-512 seeds before fix 95c463b)"]
 
 
+def _mc_wire(c, thorough):
+    mc = McOutcome()
+    model_check(mc, [dict(module="MC_FalconWire", cfg="FalconWire" if thorough else "FalconWire_q", workers=16, xmx="8g", timeout=3600),
+                     dict(module="MC_FalconWire", cfg="FalconWire_vac", workers=4, expect="violation")])
+    c.add_mc(mc)
+
+
 def c06(c):
     thorough = c.tier == "thorough"
     c.cov["rule"] = ("MC_KeyCodec: Strict (Decode(b) = Ok(x) => Encode(x) = b) over ALL byte strings of the toy format for the three object "
@@ -444,6 +451,7 @@ def c16(c):
     mc = McOutcome()
     model_check(mc, [dict(module="MC_KeyCodec", cfg="MC_KeyCodec", workers=16)])
     c.add_mc(mc)
+    _mc_wire(c, thorough)     # two parties with the two signature conventions and Reframe between them (Interop invariant)
     drive("c16", ["--tier", c.tier, "--seed", c.seed, "--out", c.work, "--shards", 14], timeout=7200)
     to = validate_traces("Trace_Interop", traces_in(c.work, "cross"), parallel=1)
     c.add_traces(to, keyfn=generic_key, label="cross")
